@@ -176,7 +176,11 @@ debug = false
 def cargo(crate, args):
     env = dict(os.environ, CARGO_TARGET_DIR=os.path.join(ROOT, ".build", "c19_target"), CARGO_NET_OFFLINE="true",
                RUSTFLAGS=GUARD + " -Awarnings --diagnostic-width=400")
-    return subprocess.run(["cargo"] + args, cwd=crate, env=env, capture_output=True, text=True)
+    try:
+        return subprocess.run(["cargo"] + args, cwd=crate, env=env, capture_output=True, text=True, timeout=1200)
+    except subprocess.TimeoutExpired as e:
+        # a build or a generated program that does not finish: reported by the caller as a machinery problem
+        return subprocess.CompletedProcess(e.cmd, 124, stdout=(e.stdout or b"").decode(errors="replace") if isinstance(e.stdout, bytes) else (e.stdout or ""), stderr="error: timed out after 1200 s")
 
 def parse_type_args(msg):
     m = re.search(r"method not found in `([^`]*)`", msg) or re.search(r"found for (?:struct|type) `([^`]*)`", msg)
